@@ -300,9 +300,10 @@ pub fn run(ctx: &Ctx, rep: &mut Report) {
     // (3) hands
     let ident5: Vec<Vec<usize>> = vec![(0..5).collect(), (0..5).rev().collect()];
     hands_space(ctx, rep, 5, &ident5);
+    hands_space(ctx, rep, 6, &[(0..6).rev().collect()]);
     if ctx.tier.thorough() {
-        hands_space(ctx, rep, 6, &[(0..6).collect(), (0..6).rev().collect()]);
-        hands_space(ctx, rep, 7, &[(0..7).collect()]);
+        hands_space(ctx, rep, 6, &[(0..6).collect()]);
+        hands_space(ctx, rep, 7, &[(0..7).collect(), (0..7).rev().collect()]);
     }
     rep.rule = "distinct values, distinct class variants, distinct (hand, order) pairs; non-trivial = values 1..=7462 (each must name one specific class), every variant, every hand".into();
     rep.bound = if ctx.tier.thorough() { "values and variants complete; five-, six- (2 orders) and seven-card hands (canonical order) complete".into() } else { "values and variants complete; all five-card hands in two orders".into() };
